@@ -112,6 +112,8 @@ def einsum_worker(inst):
 
 
 def worker(inst):
+    from symx.symarray import use_logsumexp_spec
+    use_logsumexp_spec()
     if inst[0] == "einsum":
         return einsum_worker(inst)
     from harness.core import check_prog, relational_oracle
@@ -149,7 +151,7 @@ def main():
     chk.map("checks.c08", "worker", insts, chunksize=6)
     chk.bounds = dict(semirings=[s[:2] for s in SEMIRINGS], operands="2..5 (quick) / 2..8", inputs=dict(VARS), schedules=SCHEDS,
                       einsum="equations with <= 3|4 operands over 3|4 symbols (seeded subset per arity), three backends")
-    chk.assumptions = ["carrier per semiring: real for add/mul and max|min/add, nonneg for max|min/mul, log for logaddexp/add, bool for or/and"]
+    chk.assumptions = ["assume-guarantee cut: funsor.ops.logsumexp on symbolic arrays is replaced by its specification (decided on its own under C01/C15); maxima of ops.detach()ed log-space arrays are abstracted to arbitrary positive shifts", "carrier per semiring: real for add/mul and max|min/add, nonneg for max|min/mul, log for logaddexp/add, bool for or/and"]
     chk.floor = 300
     chk.finish(rule="seeded nested sum-of-product expressions per semiring x schedule; einsum equations x backend; distinct = printed program + schedule",
                trusted_base=["z3 5.1", "symx", "lang.denote"])
